@@ -13,7 +13,8 @@ structure Res where
   detail : String := ""
 
 def Res.line (r : Res) : String :=
-  s!"R K={if r.k then 1 else 0} O={if r.o then 1 else 0} F={",".intercalate r.flags} | {r.detail}"
+  let oneLine (t : String) : String := String.ofList (t.toList.map (fun c => if c == '\n' || c == '\r' then ' ' else c))
+  s!"R K={if r.k then 1 else 0} O={if r.o then 1 else 0} F={",".intercalate r.flags} | {oneLine r.detail}"
 
 def res (k o : Bool) (flags : List String) (detail : String) : String :=
   ({ k := k, o := o, flags := flags, detail := detail } : Res).line
